@@ -36,6 +36,7 @@ type Kind struct {
 	StoreKey                       string // non-empty: objects of this kind live in a store of their own (default: one store per group+resource, shared by all served versions)
 	ScaleSub                       bool   // discovery also lists <resource>/scale, after <resource>/status as apiextensions does (not served)
 	NoGeneration                   bool   // the server does not maintain metadata.generation for this kind (as for several built-in kinds)
+	SubFirst                       bool   // discovery lists <resource>/status BEFORE <resource> (the order of a discovery list is not specified)
 }
 
 func (k *Kind) APIVersion() string {
@@ -176,10 +177,13 @@ func (s *Server) Discovery() []*metav1.APIResourceList {
 			byGV[gv] = l
 			order = append(order, gv)
 		}
-		l.APIResources = append(l.APIResources, metav1.APIResource{
+		main := metav1.APIResource{
 			Name: k.Resource, Kind: k.Kind, Namespaced: k.Namespaced, Group: k.Group, Version: k.Version,
 			Verbs: metav1.Verbs{"get", "list", "watch", "create", "update", "patch", "delete"},
-		})
+		}
+		if !k.SubFirst {
+			l.APIResources = append(l.APIResources, main)
+		}
 		if k.StatusSub {
 			l.APIResources = append(l.APIResources, metav1.APIResource{
 				Name: k.Resource + "/status", Kind: k.Kind, Namespaced: k.Namespaced, Group: k.Group, Version: k.Version,
@@ -191,6 +195,9 @@ func (s *Server) Discovery() []*metav1.APIResourceList {
 				Name: k.Resource + "/scale", Kind: "Scale", Namespaced: k.Namespaced, Group: "autoscaling", Version: "v1",
 				Verbs: metav1.Verbs{"get", "update", "patch"},
 			})
+		}
+		if k.SubFirst {
+			l.APIResources = append(l.APIResources, main)
 		}
 	}
 	var out []*metav1.APIResourceList
